@@ -158,7 +158,7 @@ type DepProbe struct {
 	seq   int
 }
 
-func (d *DepProbe) Reset() { d.Log = d.Log[:0] }
+func (d *DepProbe) Reset() { d.Log = d.Log[:0]; d.curTx = ""; d.seq = 0 }
 
 func (d *DepProbe) next(ctx context.Context) (tx string, seq int, fk FaultKind) {
 	tx = txKeyOf(ctx)
